@@ -11,6 +11,7 @@ import (
 	"sort"
 	"strings"
 	"sync"
+	"sync/atomic"
 	"time"
 )
 
@@ -404,6 +405,15 @@ func runC13(cfg runCfg) error {
 		exceeded := strings.Contains(run.Resp.Body, "exceeded max requests")
 		noData := run.Resp.Data == nil || run.Resp.Data.Kind == "null"
 		add("prop.c13.limit_error_only", !exceeded || noData, run.Resp.Body)
+		bodiesOpen := int64(0)
+		for w := 0; w < 50; w++ { // a body is closed by the goroutine that read it, which may finish just after the response
+			if bodiesOpen = atomic.LoadInt64(&openBodies); bodiesOpen == 0 {
+				break
+			}
+			time.Sleep(2 * time.Millisecond)
+		}
+		add("prop.c13.response_bodies_closed", bodiesOpen == 0, fmt.Sprintf("%d downstream response bodies were never closed", bodiesOpen))
+		atomic.StoreInt64(&openBodies, 0)
 		left, stack := settleGoroutines()
 		add("prop.c13.released", left == 0, fmt.Sprintf("%d goroutine(s) with bramble frames remain, e.g.\n%s", left, stack))
 		if lookups > 0 {
